@@ -3,3 +3,4 @@ import SqlairModel.Parser
 import SqlairModel.Lexer
 import SqlairModel.Spec.L1
 import SqlairModel.Store
+import SqlairModel.GetAllArgs
